@@ -15,8 +15,9 @@
 EXTENDS ReplicationDB, Json, IOUtils, TLCExt
 
 TraceLog == ndJsonDeserialize(IOEnv.VERIF_TRACE)
-VARIABLES l, bad
-tvars == <<vars, l, bad>>
+VARIABLES l, bad,
+          arrOk    \* arrOk[p][r]: the state of r's request was a prefix of p's history when the request arrived (before ExportTxByID ran)
+tvars == <<vars, l, bad, arrOk>>
 Ev == TraceLog[l]
 Is(e) == l <= Len(TraceLog) /\ Ev.ev = e /\ l' = l + 1
 N == Ev.node
@@ -27,24 +28,24 @@ EvSt == St(Ev.cid, Ev.calh, Ev.pid, Ev.palh)
 FollowOf(x) == IF x = "" THEN None ELSE x
 
 Cf0 == [n \in Nodes |-> [role |-> "replica", follows |-> None, sync |-> FALSE, need |-> 0]]
-TraceInit == Init(Cf0) /\ l = 1 /\ bad = <<>>
+TraceInit == Init(Cf0) /\ l = 1 /\ bad = <<>> /\ arrOk = [p \in Nodes |-> [r \in Nodes |-> FALSE]]
 
 TReset ==
-  /\ Is("Reset") /\ UNCHANGED bad
+  /\ Is("Reset") /\ UNCHANGED bad /\ arrOk' = [p \in Nodes |-> [r \in Nodes |-> FALSE]]
   /\ LET cf == [n \in Nodes |-> LET c == CHOOSE c \in Range(Ev.init) : c.node = n
                                 IN [role |-> c.role, follows |-> FollowOf(c.follows), sync |-> c.sync, need |-> c.need]]
      IN /\ pre' = [n \in Nodes |-> <<>>] /\ dur' = [n \in Nodes |-> 0] /\ com' = [n \in Nodes |-> 0]
         /\ role' = [n \in Nodes |-> cf[n].role] /\ follows' = [n \in Nodes |-> cf[n].follows]
         /\ syncOn' = [n \in Nodes |-> cf[n].sync] /\ need' = [n \in Nodes |-> cf[n].need]
         /\ everDur' = [n \in Nodes |-> {}] /\ created' = {}
-        /\ rep' = [n \in Nodes |-> NoSt] /\ acked' = [p \in Nodes |-> [r \in Nodes |-> 0]]
+        /\ rep' = [n \in Nodes |-> NoSt] /\ acked' = [p \in Nodes |-> [r \in Nodes |-> 0]] /\ pend' = [p \in Nodes |-> [r \in Nodes |-> NoSt]]
         /\ allowBy' = [n \in Nodes |-> None] /\ srcs' = [n \in Nodes |-> IF cf[n].follows = None THEN {} ELSE {cf[n].follows}]
 
 TPrecommit ==
-  /\ Is("Precommit") /\ PrecommitS(N, Ev.id, Ev.alh, Ev.prev) /\ PrecommitE(N, Ev.id, Ev.alh, Ev.prev)
+  /\ Is("Precommit") /\ UNCHANGED arrOk /\ PrecommitS(N, Ev.id, Ev.alh, Ev.prev) /\ PrecommitE(N, Ev.id, Ev.alh, Ev.prev)
   /\ Chk(PrecommitG(N, Ev.id, Ev.alh, Ev.prev), "replica-precommits-tx-no-primary-created", Ev.id)
 
-TDurable == Is("TxLogSynced") /\ Durable(N, Ev.upto) /\ UNCHANGED bad
+TDurable == Is("TxLogSynced") /\ UNCHANGED arrOk /\ Durable(N, Ev.upto) /\ UNCHANGED bad
 
 CommitBadName(n, upto) ==
   IF role[n] = "primary" THEN "primary-commits-without-durable-acks"
@@ -52,56 +53,59 @@ CommitBadName(n, upto) ==
   ELSE IF \E p \in Auth(n) : upto <= Len(pre[p]) /\ \A k \in 1..upto : pre[n][k] = pre[p][k] THEN "replica-commits-before-primary"
   ELSE "replica-commits-tx-not-in-primary-history"
 TCommitted ==
-  /\ Is("Committed") /\ CommittedS(N, Ev.upto, Ev.alh) /\ CommittedE(N, Ev.upto, Ev.alh)
+  /\ Is("Committed") /\ UNCHANGED arrOk /\ CommittedS(N, Ev.upto, Ev.alh) /\ CommittedE(N, Ev.upto, Ev.alh)
   /\ Chk(CommittedG(N, Ev.upto, Ev.alh), CommitBadName(N, Ev.upto), Ev.upto)
 
-TDiscard == Is("Discard") /\ Discard(N, Ev.since) /\ UNCHANGED bad
+TDiscard == Is("Discard") /\ UNCHANGED arrOk /\ Discard(N, Ev.since) /\ UNCHANGED bad
 
-TOpened == /\ Is("Opened") /\ UNCHANGED bad
+TOpened == /\ Is("Opened") /\ UNCHANGED arrOk /\ UNCHANGED bad
            /\ Reopened(N, Ev.c, SubSeq(pre[N], 1, Ev.c) \o [k \in 1..Len(Ev.reloaded) |-> Ev.reloaded[k].alh])
 
 \* store hook: on a primary the allowance computed from the acks; on a replica the allowance of the followed node takes force
 TAllow ==
-  /\ Is("Allow")
+  /\ Is("Allow") /\ UNCHANGED arrOk
   /\ IF role[N] = "primary"
-     THEN UNCHANGED vars /\ Chk(PAllowG(N, Ev.upto), "primary-allows-commit-without-acks", Ev.upto)
+     THEN PAllowE(N) /\ Chk(PAllowG(N, Ev.upto), "primary-allows-commit-without-acks", Ev.upto)
      ELSE /\ allowBy' = [allowBy EXCEPT ![N] = follows[N]] /\ UNCHANGED bad
-          /\ UNCHANGED <<pre, dur, com, role, follows, syncOn, need, everDur, created, rep, acked, srcs>>
+          /\ UNCHANGED <<pre, dur, com, role, follows, syncOn, need, everDur, created, rep, acked, pend, srcs>>
 
 ReportBadName(r, st) ==
   IF ~ReportCommitG(r, st) THEN "replica-reports-commit-it-does-not-hold"
   ELSE IF ~ReportHeldG(r, st) THEN "replica-reports-precommit-it-does-not-hold"
   ELSE "replica-reports-non-durable-precommit"
-TReport == Is("Report") /\ ReportE(N, EvSt) /\ Chk(ReportG(N, EvSt), ReportBadName(N, EvSt), Ev.pid)
+TReport == Is("Report") /\ UNCHANGED arrOk /\ ReportE(N, EvSt) /\ Chk(ReportG(N, EvSt), ReportBadName(N, EvSt), Ev.pid)
 
 TArrive ==
   /\ Is("Arrive")
   /\ LET st == IF Ev.has THEN EvSt ELSE NoSt
-     IN ArriveE(N, Ev.from, Ev.has, st) /\ Chk(ArriveG(N, Ev.from, Ev.has, st), "replicator-sends-state-it-did-not-read", Ev.tx)
+     IN /\ ArriveE(N, Ev.from, Ev.has, st, TRUE) /\ Chk(ArriveG(N, Ev.from, Ev.has, st), "replicator-sends-state-it-did-not-read", Ev.tx)
+        /\ arrOk' = [arrOk EXCEPT ![N][Ev.from] = StatePrefix(N, st)]
 
 AnswerBadName(p, has, st, withTx) ==
   IF has /\ ~StatePrefix(p, st) THEN (IF ~CommitPartOk(p, st) THEN "primary-answers-replica-with-diverged-commit-state" ELSE "primary-answers-replica-with-diverged-precommit-state")
   ELSE IF has /\ ~MayG(p, st, Ev.may, Ev.mayAlh) THEN "primary-allows-replica-commit-beyond-its-own-commit"
   ELSE "primary-exports-tx-not-in-its-history"
 TAnswer ==
-  /\ Is("Answer") /\ UNCHANGED vars
+  /\ Is("Answer") /\ UNCHANGED arrOk /\ PAllowE(N)
   /\ LET st == IF Ev.has THEN EvSt ELSE NoSt IN
      CASE Ev.res = "tx" -> Chk(AnswerTxG(N, Ev.to, Ev.has, st, Ev.tx, Ev.txAlh, Ev.allowPre, Ev.may, Ev.mayAlh), AnswerBadName(N, Ev.has, st, TRUE), Ev.tx)
        [] Ev.res = "state" -> Chk(AnswerStateG(N, Ev.to, Ev.has, st, Ev.may, Ev.mayAlh), AnswerBadName(N, Ev.has, st, FALSE), Ev.tx)
-       [] Ev.res \in {"diverged-commit", "diverged-precommit"} -> Chk(AnswerDivergedG(N, Ev.to, st), "primary-rejects-replica-whose-state-is-a-prefix", Ev.tx)
+       \* being a prefix is monotone in the primary's progress: a rejection is unjustified only if the state was a prefix already when the
+       \* request arrived (the primary may have caught up between its check and this event)
+       [] Ev.res \in {"diverged-commit", "diverged-precommit"} -> Chk(AnswerDivergedG(N, Ev.to, st) \/ ~arrOk[N][Ev.to], "primary-rejects-replica-whose-state-is-a-prefix", Ev.tx)
        [] Ev.res = "garbled" -> Note("primary-exports-another-tx-than-requested", Ev.tx)
        [] OTHER -> UNCHANGED bad
 
 TRAllow ==
-  /\ Is("RAllow") /\ UNCHANGED vars
+  /\ Is("RAllow") /\ UNCHANGED arrOk /\ UNCHANGED vars
   /\ IF Ev.ok THEN Chk(RAllowG(N, Ev.upto, Ev.alh), "replica-accepts-allowance-for-tx-the-primary-did-not-commit", Ev.upto) ELSE UNCHANGED bad
 
-TSwitch == Is("Switch") /\ Switch(N, Ev.to, Ev.sync) /\ UNCHANGED bad
-TConnected == Is("Connected") /\ Connected(N, Ev.to) /\ UNCHANGED bad
-TPromote == Is("Promote") /\ Promote(N, Ev.sync, Ev.need) /\ UNCHANGED bad
+TSwitch == Is("Switch") /\ UNCHANGED arrOk /\ Switch(N, Ev.to, Ev.sync) /\ UNCHANGED bad
+TConnected == Is("Connected") /\ UNCHANGED arrOk /\ Connected(N, Ev.to) /\ UNCHANGED bad
+TPromote == Is("Promote") /\ UNCHANGED arrOk /\ Promote(N, Ev.sync, Ev.need) /\ UNCHANGED bad
 
 Ignored == {"VLogsSynced", "CLogFlushed", "CLogSynced", "Closed", "Applied", "RDiscardCall", "Lost", "Final"}
-TOther == l <= Len(TraceLog) /\ Ev.ev \in Ignored /\ l' = l + 1 /\ UNCHANGED <<vars, bad>>
+TOther == l <= Len(TraceLog) /\ Ev.ev \in Ignored /\ l' = l + 1 /\ UNCHANGED <<vars, bad, arrOk>>
 
 TraceNext == TReset \/ TPrecommit \/ TDurable \/ TCommitted \/ TDiscard \/ TOpened \/ TAllow \/ TReport \/ TArrive \/ TAnswer
              \/ TRAllow \/ TSwitch \/ TConnected \/ TPromote \/ TOther
